@@ -1542,6 +1542,8 @@ def _read_character(ctx: ReaderContext) -> str:
         is_first_char = False
 
     character = "".join(s)
+    if character == "":
+        raise ctx.eof_error("Unexpected EOF in character literal")
     special = _SPECIAL_CHARS.get(character, None)
     if special is not None:
         return special
